@@ -74,7 +74,7 @@ check("C15", "exploration",
       "DESIGN.md §3 C15")
 check("C17", "exploration",
       "bounded exhaustive enumeration of multi-line texts over a hostile line alphabet through every rewriter and rule; token-preservation, fixed-point and rule-model oracles",
-      "All texts of <=3 (quick) / <=4 (thorough) lines over a 28-fragment line alphabet (non-ASCII text incl. a supplementary-plane character in literals and comments, keywords of every length 2..12 in lower and mixed case, indentation in every tab / space order, multi-line literals and comments containing keywords, blanks and quotes; quoted identifiers spelled like keywords; CRLF) through each auto-fix, the CLI --auto-fix sequence and the LSP formatting action: token sequence and comment texts preserved up to keyword case, second application changes nothing, re-lint is clean, each layout rule reports a line iff the generator's three-valued model says so, locations exist.",
+      "All texts of <=3 (quick) / <=4 (thorough) lines over a 30-fragment line alphabet (identifiers that begin or end with a keyword, non-ASCII text incl. a supplementary-plane character in literals and comments, keywords of every length 2..12 in lower and mixed case, indentation in every tab / space order, multi-line literals and comments containing keywords, blanks and quotes; quoted identifiers spelled like keywords; CRLF) through each auto-fix, the CLI --auto-fix sequence and the LSP formatting action: token sequence and comment texts preserved up to keyword case, second application changes nothing, re-lint is clean, each layout rule reports a line iff the generator's three-valued model says so, locations exist.",
       "Trusted: the generator's lexical-state model of each rule's documented definition (three-valued: must / must-not / either).",
       "DESIGN.md §3 C17")
 check("C19", "fault_enumeration",
